@@ -237,7 +237,7 @@ pub fn check_program(prog: &Program, seed: u64, thorough: bool, rep: &mut Report
 pub fn run(p: &Params, rep: &mut Report) {
     {
         // subjects of about 2^16 characters (and twice that in the thorough tier): one pattern per shard
-        let ns: Vec<usize> = if p.thorough { vec![65_535, 65_536, 65_537, 131_073] } else { vec![65_530 + (p.seed as usize % 5) * 3, 65_536 + (p.shard as usize % 3)] };
+        let ns: Vec<usize> = if p.thorough { vec![65_535, 65_536, 65_537, 131_073] } else { vec![65_530 + (p.seed as usize % 5) * 3, 65_536 + (p.shard as usize % 3), [400usize, 1000, 1024, 2048, 4096, 5000, 10_000, 16_384, 30_000, 50_000][(p.shard as usize + p.seed as usize) % 10] + (p.seed as usize % 3)] };
         for n in ns {
             super::ladder::long_subject_replace(rep, p.shard as usize, n, p.seed);
         }
